@@ -285,6 +285,151 @@ def none_none(rep, prog, rule):
         rep.unk(rule, "do_convolution", f.loc, "; ".join(why))
 
 
+def _local_used(fn, l):
+    """is local l read anywhere (operands of statements / terminators)?"""
+    def in_op(op):
+        return isinstance(op, list) and op and op[0] in ("c", "m") and op[1] and op[1][0] == l
+
+    def walk(x):
+        if isinstance(x, list):
+            if in_op(x):
+                return True
+            return any(walk(y) for y in x)
+        return False
+    for blk in fn.blocks:
+        for st in blk["s"]:
+            if st[0] == "a" and walk(st[2]):
+                return True
+        tt = blk["t"]
+        if tt and tt[0] == "sw" and walk(tt[1]):
+            return True
+        if tt and tt[0] == "call" and walk(tt[2]):
+            return True
+    return False
+
+
+def _fn_return_expr(prog, e):
+    """inline a call of a crate function with a single return expression (one level)"""
+    from ..engines.validators import subst
+    if e[0] not in ("call", "callat"):
+        return None
+    res = e[4] if e[0] == "callat" else e[3]
+    args = e[3] if e[0] == "callat" else e[2]
+    g = prog.fns.get(res) if isinstance(res, str) else None
+    if g is None:
+        return None
+    ds = g.defs().get(0, [])
+    if len(ds) != 1:
+        return None
+    gs = Sym(g)
+    r = gs.rvalue(ds[0][2], ds[0][0], (ds[0][0], ds[0][1]))
+    mapping = {("param", i + 1, g.local_name(i + 1)): a for i, a in enumerate(args)}
+    return subst(r, mapping)
+
+
+def skip_arm(rep, prog, rule):
+    rep.rule(rule, "where do_convolution skips both passes and falls back to the copy routine "
+             "without looking at its result, the conditions of that arm (need_horizontal and "
+             "need_vertical both false) establish exactly what the copy routine needs to succeed: "
+             "dst size == crop size and integral left/top as *exact* equalities; otherwise the "
+             "copy fails silently and Ok is returned with the destination unwritten")
+    f = prog.fn_by_name("resizer::Resizer::do_convolution")
+    rep.touch(f)
+    sym = Sym(f)
+    cands = [g for g in prog.fns.values() if g.file == "src/resizer.rs" and g.kind != "closure"
+             and "DifferentDimensionsError" in g.d.get("output", "")]
+    if len(cands) != 1:
+        rep.unk(rule, "copy-routine", f.loc, "copy routine not located")
+        return
+    copy = cands[0]
+    calls = [c for c in f.calls() if copy in prog.call_targets(c)]
+    if not calls:
+        rep.ok(rule, "no-fallback", f.loc, "do_convolution does not fall back to the copy routine",
+               nontrivial=False)
+        return
+    for c in calls:
+        key = "fallback-copy"
+        dest = c.dest[0] if c.dest else None
+        if dest is not None and _local_used(f, dest):
+            rep.ok(rule, key, c.at, "the result of the copy routine is inspected")
+            continue
+        # facts of the arm: discr(then(need_X, ..)) == None
+        needs = []
+        for cond, val in sym.facts_at(c.bb):
+            if cond[0] == "discr" and val == 0:
+                e = cond[1]
+                if e[0] in ("call", "callat") and (e[1] if e[0] == "call" else e[2]) == "then":
+                    a0 = (e[2] if e[0] == "call" else e[3])[0]
+                    if a0[0] == "local":
+                        needs.append(a0)
+        if len(needs) != 2:
+            rep.unk(rule, key, c.at, "the arm's conditions are not of the form (None, None) of "
+                    "two `need_*.then(..)` options")
+            continue
+        established, tolerant, unknown = set(), [], []
+
+        def learn(e, val):
+            """record what (e == val) says"""
+            while e[0] == "cast":
+                e = e[2]
+            if e[0] == "un" and e[1] == "Not":
+                return learn(e[2], not val)
+            if e[0] == "bin" and e[1] in ("Ne", "Eq"):
+                eq = (e[1] == "Eq") == bool(val)
+                if not eq:
+                    return
+                a, b = _strip(e[2]), _strip(e[3])
+                for x, y in ((a, b), (b, a)):
+                    if x[0] == "field" and y[0] == "call" and y[1] == "round" and y[2] and _strip(y[2][0]) == x:
+                        established.add(("int", x[2]))
+                    if x[0] == "call" and x[1] in ("width", "height") and y[0] == "field" and y[2] == x[1]:
+                        established.add(("dim", x[1]))
+                return
+            if e[0] == "bin":
+                return                  # an ordering comparison: says nothing about equality
+            if e[0] in ("call", "callat"):
+                r = _fn_return_expr(prog, e)
+                if r is not None:
+                    rr = r
+                    while rr[0] == "cast":
+                        rr = rr[2]
+                    if rr[0] == "bin" and rr[1] in ("Lt", "Le") and "abs(" in fmt(rr[2]) and val:
+                        tolerant.append(fmt(e)[:100])
+                        return
+                    return learn(r, val)
+                unknown.append(fmt(e)[:100])
+                return
+            if e[0] == "const":
+                return
+            unknown.append(fmt(e)[:100])
+        for nl in needs:
+            for (bb, j, rv, whole) in f.defs().get(nl[1], []):
+                e = sym.rvalue(rv, bb, (bb, j))
+                if e[0] == "const" and e[1] is True:
+                    continue            # need = true: not this arm
+                # need == false on this definition: its guards hold and its value is false
+                for cond, val in sym.facts_at(bb):
+                    if isinstance(val, bool):
+                        learn(cond, val)
+                learn(e, False)
+        need = {("dim", "width"), ("dim", "height"), ("int", "left"), ("int", "top")}
+        missing = sorted(need - established)
+        if not missing:
+            rep.ok(rule, key, c.at, "the arm establishes dst size == crop size and integral "
+                   "left/top exactly: the copy cannot fail")
+        elif unknown:
+            rep.unk(rule, key, c.at, "conditions not recognised: %s" % unknown[:2])
+        else:
+            rep.bad(rule, key + "|silent-failure", c.at, "do_convolution skips both passes and "
+                    "discards the result of %s, but the arm only establishes %s%s; the copy "
+                    "routine needs exact equalities (%s missing), fails otherwise, and resize "
+                    "returns Ok with the destination unwritten" % (
+                        copy.name.rsplit("::", 1)[-1],
+                        sorted(established) or "nothing exact",
+                        (" and the tolerant comparisons %s" % tolerant[:2]) if tolerant else "",
+                        ", ".join("%s:%s" % m for m in missing)))
+
+
 def run(rep, tier):
     cfgs = ["x86"] if tier == "quick" else ["x86", "x86-rayon", "arm", "wasm"]
     for cfg, prog in programs(cfgs):
@@ -294,3 +439,4 @@ def run(rep, tier):
         rep.call(need_pass, rep, prog, "C12.need-pass")
         rep.call(none_none, rep, prog, "C12.none-none")
         rep.call(supersampling_guard, rep, prog, "C12.supersampling-guard")
+        rep.call(skip_arm, rep, prog, "C12.skip-arm")
